@@ -516,6 +516,7 @@ func famFSConcurrent(w *World, spec *RunSpec, res *RunResult) {
 	}
 	res.Summary = fmt.Sprintf("fs concurrent: %d ops, %d system calls", len(ops), len(x.FS.Calls))
 	res.Touched = len(ops) > 3
+	res.Faultless = true
 }
 
 func histString(ops []porcupine.Operation) string {
